@@ -22,6 +22,7 @@ def main(argv=None):
     ap.add_argument("--replay", default=None)
     ap.add_argument("--no-replay", action="store_true", help="skip concrete playback (debug)")
     ap.add_argument("--list", action="store_true")
+    ap.add_argument("--to", type=int, default=None, help="override per-harness timeout (debug)")
     a = ap.parse_args(argv)
     if a.replay:
         return do_replay(a.replay)
@@ -30,7 +31,10 @@ def main(argv=None):
     gen_all()
     hs = [h for h in K.discover(prop) if tier == "thorough" or h.tier == "quick"]
     if a.only:
-        hs = [h for h in hs if a.only in h.name]
+        hs = [h for h in hs if any(x in h.name for x in a.only.split(","))]
+    if a.to:
+        for h in hs:
+            h.timeout = a.to
     smt_obs = []
     try:
         pm = importlib.import_module(f"vf.props.{prop.lower()}")
